@@ -3,13 +3,15 @@ import WuffsVerif.Model.Indent
 import WuffsVerif.Model.Render
 import WuffsVerif.Model.RenderTokens
 import WuffsVerif.Proof.RenderShape
+import WuffsVerif.Proof.RenderIdemMeasure
 /-! Line driver for C12.  Ops:
   format <tabs 0|1> <spaces n> <hex>   -> ok <hex>      (lib/dumbindent FormatBytes(nil, src, opts))
   closed <tabs 0|1> <spaces n> <hex>   -> 1 | 0         (ghost: Indent.lexClosed, the hypothesis of indent_idempotent)
   num <hex>                            -> ok <hex>      (lang/render appendNum(nil, s))
   fmt <hex>                            -> ok <hex> | reject   (token.Tokenize + render.Render, no parse gate)
-  rok <hex>                            -> 1 | 0 tokens | 0 comments | 0 sorted | 0 lines | reject
-        (ghost: the hypothesis `streamOK` of Props.C12.render_retokenizes_partial on Tokenize's result;
+  rok <hex>                            -> 1 | 0 tokens | 0 comments | 0 sorted | 0 lines | 0 numcolon | reject
+        (ghost: the hypotheses of Props.C12.render_retokenizes_partial / render_idempotent on Tokenize's result:
+         `streamOK`, and `numColonFree` (no numeric literal directly before a ":");
          the harness sends it for every source the real wuffsfmt accepts and expects 1)
   mvl <group index> <hex source>       -> <measureVarNameLength> <findColon | -1> | empty | none
         (per-function tie, round 2: Tokenize the source, take the index-th line of tokens with its
@@ -68,6 +70,7 @@ def c12Step (l : List String) : String :=
         else if !comments.toList.all Render.wfComment then "0 comments"
         else if !Render.sortedLinesB toks then "0 sorted"
         else if !Render.linesOK (toks.length + 1) toks then "0 lines"
+        else if !Render.numColonFree toks then "0 numcolon"
         else "1"
       | none => "reject"
     | none => "bad-op"
